@@ -2,5 +2,6 @@
 ["<%" "%>" "<%="] @t.delim
 (directive) @t.directive
 (output) @t.output
+(code) @t.code
 (hole) @t.hole
 (hole_name) @t.name
